@@ -19,7 +19,8 @@ META = {
             "stack popped, which the optimizer prevents since fix 5dcbc11): each has a Coq witness (C02_*_refuted) replayed on the real "
             "code on every run. Every run validates gen_rule/gen_skip/built-ins structurally against the parser the REAL generator emits "
             "for thousands of generated grammars (both feature sets), and compiles a batch of derive-generated parsers which it runs "
-            "against the real pest_vm and against both extracted models on all inputs up to a length bound.",
+            "against the real pest_vm and against both extracted models on all inputs up to a length bound."
+            " When the translation validation finds a structural difference and no behavioural one, an escalated search pinpoints the differing construct (CULPRIT), builds grammars around it (1-4 pushes of different literals, predicates, choices, repetitions, trivia) and runs the real derived parser against the real pest_vm on them; its hit is the replay.",
     "note": "Trusted: Coq kernel; extraction; the syn-based reader of the emitted code (strict: unknown shapes are errors) and the runner; "
             "VmCompile.v as the model of vm/src/lib.rs and Exec.v as the model of parser_state.rs (tied to the code by the batch runs here and "
             "by C01/C03); rustc for the compiled batch. The call limit is outside the statement: the back-ends count different calls, and the "
@@ -47,12 +48,12 @@ def scratch(name, features):
     return "/tmp/pvharness-%s-%s%s" % (tag, name, suffix), "/tmp/pvtarget-%s-%s%s" % (tag, name, suffix)
 
 
-def build_batch(hbin, count, seed, features, name="c02batch", gfile=None, timeout=1500, lit=False):
+def build_batch(hbin, count, seed, features, name="c02batch", gfile=None, timeout=1500, lit=False, around=False):
     """Generate the batch program with `c02 batch`, build it against the repository (path dependencies: cargo rebuilds when the
     repository changes); returns (rc, log, exe)."""
     d, tdir = scratch(name, features)
     os.makedirs(os.path.join(d, "src"), exist_ok=True)
-    rc, src = sh("%s batch %d %d %s %s" % (hbin, count, seed, shlex.quote(gfile) if gfile else "", "lit" if lit else ""), timeout=600)
+    rc, src = sh("%s batch %d %d %s %s" % (hbin, count, seed, shlex.quote(gfile) if gfile else "", "around" if around else ("lit" if lit else "")), timeout=600)
     if rc != 0 or "fn run_all" not in src:
         return 1, "c02 batch failed:\n" + src[-2000:], ""
     write_if_changed(os.path.join(d, "src", "main.rs"), src)
@@ -70,15 +71,40 @@ def build_batch(hbin, count, seed, features, name="c02batch", gfile=None, timeou
     return rc, out, os.path.join(tdir, "release", name)
 
 
+CULPRITS = []   # constructs pinpointed by the translation validation of the last run_pipes call (CULPRIT lines of the runner)
+
+
+def pick_culprits(culprits, feat, limit=4):
+    """Distinct pinpointed constructs for one feature set: grammars inside H first, sub-expressions before whole rules, short first;
+    one entry per (kind, construct, atomic / non-atomic rule)."""
+    pool = [c for c in culprits if c["x"] == ("1" if feat else "0")]
+    pool.sort(key=lambda c: (c["h"] != "0", {"expr": 0, "builtin": 1, "rule": 2, "trivia": 3, "skip": 4}.get(c["kind"], 5), len(c["construct"]), len(c["grammar"])))
+    out, seen = [], set()
+    for c in pool:
+        key = (c["kind"], c["construct"] if c["kind"] in ("expr", "builtin") else c["what"].split(" ")[-1] + c["ty"], c["ty"] in ("a", "c"))
+        if key in seen:
+            continue
+        seen.add(key)
+        out.append(c)
+        if len(out) >= limit:
+            break
+    return out
+
+
 def run_pipes(cmds, timeout=3000):
     outs = run_pipeline(cmds, timeout=timeout)
     mism, known, stats = [], [], {}
+    del CULPRITS[:]
     for (rc, out), c in zip(outs, cmds):
         m, s, other = parse_runner_output(out)
         if rc != 0 or "mismatches" not in s or "evaluations" not in s:
             mism.append({"kind": "harness", "case": c, "impl": "pipeline `%s` failed rc=%s" % (c, rc), "expected": out[-800:]})
         mism += m
         for line in other:
+            if line.startswith("CULPRIT\t"):
+                p = line.split("\t")
+                if len(p) >= 8:
+                    CULPRITS.append({"x": p[1], "ty": p[2], "kind": p[3], "h": p[4], "what": p[5], "construct": p[6], "grammar": p[7]})
             if line.startswith("KNOWN\t"):
                 p = line.split("\t")
                 known.append({"class": p[1], "case": p[2] if len(p) > 2 else "", "derive": p[3] if len(p) > 3 else "", "vm": p[4] if len(p) > 4 else ""})
@@ -134,7 +160,7 @@ def run(tier, seed, replay=None):
             log("replay: the generated parser does not compile:\n" + bout[-1500:])
             res.violation("replayed grammar: the derive-generated parser does not compile", {"case": gtext, "log": bout[-1500:]})
             return res.finish()
-        rc, out = sh("%s %d | grep -E '^(U|G|#)|^0 %s %s\t' | %s" % (exe, max(1, len(inp) // 2), re.escape(rule), re.escape(inp), runner), timeout=600)
+        rc, out = sh("%s one %s %s | %s" % (exe, shlex.quote(rule), shlex.quote(inp), runner), timeout=600)
         m, s, other = parse_runner_output(out)
         spec = [y for y in m if y["kind"] == "spec"]
         log("replay: %s" % out[-1500:])
@@ -168,10 +194,57 @@ def run(tier, seed, replay=None):
             cmds.append("%s %d %d %d | %s" % (exe, ml, a, min(total, a + step), runner))
     mism, known, stats = run_pipes(cmds)
 
-    # ---- targeted failing-input search: when the emitted code differs structurally from the model but the batch found no behavioural
-    # difference, compile the differing grammars themselves and run them on all short strings over their own literal alphabet ----
+    culprits = list(CULPRITS)
+    searches = []
+
+    def found_spec():
+        return [m for m in mism if m["kind"] == "spec"]
+
+    def absorb(s2):
+        for k, v in s2.items():
+            if k in ("evaluations", "distinct_nontrivial", "spec_in_H") and isinstance(v, int):
+                stats[k] = stats.get(k, 0) + v
+
+    # ---- escalated failing-input search, only when the emitted code differs structurally from the model and the batch found no
+    # behavioural difference.  Stage A: grammars built AROUND the constructs the translation validation pinpointed (the construct below
+    # several unequal stack entries, under both predicates, in alternatives / repetitions / sequences with trivia, behind rule calls, in
+    # every modifier class), real derive parser vs real pest_vm on inputs over each rule's own literals (exhaustive + guided).
+    # Stage B: the differing grammars themselves on all short strings over their own literal alphabet. ----
     tv_diff = [m for m in mism if m["kind"] == "model" and " at=" in m["case"] and field(m["case"], "g")]
-    if tv_diff and not [m for m in mism if m["kind"] == "spec"]:
+    if tv_diff and culprits and not found_spec():
+        for feat in ("", "extras"):
+            if found_spec():
+                break
+            chosen = pick_culprits(culprits, feat)
+            if not chosen:
+                continue
+            cf = os.path.join(BUILD, "c02_around_constructs%s.txt" % ("-x" if feat else ""))
+            with open(cf, "w") as f:
+                for c in chosen:
+                    f.write("\t".join([c["ty"], c["kind"], c["what"], c["construct"], c["grammar"]]) + "\n")
+            t0 = time.time()
+            brc, bout, exe = build_batch(builds[feat], 0, seed, feat, name="c02around", gfile=cf, around=True)
+            what = ", ".join("%s `%s` (%s, rule modifier %s)" % (c["kind"], c["construct"][:60], c["what"], c["ty"]) for c in chosen)
+            if brc != 0:
+                log("C02: search around %s: the grammars do not compile (%s)" % (what, bout[-300:].replace("\n", " ")))
+                searches.append({"stage": "around", "extras": bool(feat), "constructs": what, "result": "grammars did not compile"})
+                continue
+            rc, info = sh("grep -c '^mod g' %s" % os.path.join(scratch("c02around", feat)[0], "src", "main.rs"))
+            ng = int(info.strip() or "0")
+            chunks = max(1, min(NPROC, ng))
+            step = (ng + chunks - 1) // chunks if ng else 1
+            m2, k2, s2 = run_pipes(["%s 4 %d %d | %s" % (exe, a, min(ng, a + step), runner) for a in range(0, max(ng, 1), step)])
+            log("C02: search around the pinpointed constructs%s [%s]: %d grammars, %d (rule, input) evaluations, %d direct differences, %d disagreements inside H (%.0fs)" % (
+                " (grammar-extras)" if feat else "", what, ng, s2.get("evaluations", 0), s2.get("direct_differences", 0), s2.get("spec_in_H", 0), time.time() - t0))
+            searches.append({"stage": "around", "extras": bool(feat), "constructs": what, "grammars": ng, "evaluations": s2.get("evaluations", 0),
+                             "direct_differences": s2.get("direct_differences", 0), "disagreements_in_H": s2.get("spec_in_H", 0)})
+            mism += [m for m in m2 if m["kind"] == "spec"]
+            known += k2
+            for m in m2:
+                if m["kind"] == "harness":
+                    log("C02: search around: a pipeline failed (%s)" % m["impl"][:200])
+            absorb(s2)
+    if tv_diff and not found_spec():
         for feat in ("", "extras"):
             pool = [m for m in tv_diff if field(m["case"], "x") == ("1" if feat else "0")]
             groups = {}
@@ -194,10 +267,12 @@ def run(tier, seed, replay=None):
             m2, k2, s2 = run_pipes(["%s 4 | %s" % (exe, runner)])
             log("C02: targeted search over %d structurally differing grammars%s: %d cases, %d disagreements inside H" % (
                 len(texts), " (grammar-extras)" if feat else "", s2.get("cases", 0), s2.get("spec_in_H", 0)))
+            searches.append({"stage": "differing grammars", "extras": bool(feat), "grammars": len(texts), "evaluations": s2.get("evaluations", 0),
+                             "disagreements_in_H": s2.get("spec_in_H", 0)})
             mism += [m for m in m2 if m["kind"] in ("spec", "harness")]
-            for k, v in s2.items():
-                if k in ("cases", "evaluations", "distinct_nontrivial", "spec_in_H"):
-                    stats[k] = stats.get(k, 0) + v
+            absorb(s2)
+            if "cases" in s2:
+                stats["cases"] = stats.get("cases", 0) + s2["cases"]
 
     kf = {f.get("class"): f for f in known_findings("C02") if f.get("status") == "known"}
     spec_m = [m for m in mism if m["kind"] == "spec"]
@@ -226,13 +301,20 @@ def run(tier, seed, replay=None):
             log("KNOWN-FINDING candidate [not yet in known_findings.json]: property=C02 class=%s %s - %s (%s cases in this run)" % (cls, CLASSES.get(cls, ""), wit, n))
 
     if spec_m:
-        worst = min(spec_m, key=lambda m: (len(field(m["case"], "g")), len(field(m["case"], "in"))))
+        def trimmed(m):
+            """grammar of a case without the search rules (around_<n>) other than the one that fails: they are not called by anything"""
+            g, r = field(m["case"], "g"), field(m["case"], "r")
+            lines = [l for l in g.split("\\n") if l.strip()]
+            keep = [l for l in lines if not l.startswith("around_") or l.startswith(r + " =")]
+            return "\\n".join(keep) + "\\n" if r.startswith("around_") and len(keep) < len(lines) else g
+        worst = min(spec_m, key=lambda m: (len(trimmed(m)), len(field(m["case"], "in"))))
         c = worst["case"]
+        gtrim = trimmed(worst)
         res.violation("the derive-generated parser and pest_vm disagree on a grammar inside class H: grammar `%s`, rule %s, input (hex) %s: generated `%s` vs VM `%s` "
-                      "(%d disagreeing cases in this run)" % (field(c, "g")[:400], field(c, "r"), field(c, "in"), worst["impl"][:200], worst["expected"][:200],
+                      "(%d disagreeing cases in this run)" % (gtrim[:400], field(c, "r"), field(c, "in"), worst["impl"][:200], worst["expected"][:200],
                                                             stats.get("spec_in_H", len(spec_m))),
                       {"theorem_or_correspondence": "C02 oracle: generated parser vs pest_vm (real code, compiled batch)", "case": c,
-                       "grammar": field(c, "g").replace("\\n", "\n"), "rule": field(c, "r"), "input": field(c, "in"),
+                       "grammar": gtrim.replace("\\n", "\n"), "rule": field(c, "r"), "input": field(c, "in"),
                        "extras": 1 if field(c, "x") == "1" else 0, "impl": worst["impl"], "vm": worst["expected"]})
     if model_m:
         tvm = [m for m in model_m if " at=" in m["case"]]
@@ -289,6 +371,7 @@ def run(tier, seed, replay=None):
         "classes_outside_H": {k: stats.get(k, 0) for k in ("ws_nonatomic", "node_tag", "dirty_atomic_rep")},
         "known_classes_seen": sorted(seen_classes.keys()),
         "batch_grammars": batches,
+        "escalated_search": searches if searches else "not run (no structural difference between emitted code and model)",
     })
     res.assumptions = ["no call limit (limit = None) in the theorem; the batch runs under a limit of 3000 calls and discards cases that touch it",
                        "the batch alphabet is {x, y, space, 5}; the theorem is for arbitrary byte strings"]
